@@ -4,9 +4,20 @@ Import ListNotations.
 From BMC Require Import Base Prim Layers Layers2 Serialize SpecRequests Packet Conn Handshake Hmac Proc.
 From BMCProps Require Export TieBase.
 Local Open Scope N_scope.
-Lemma tie_entities : G.ipmiSensorEntityIDs = ipmi_entities /\ G.dcmiSensorEntityIDs = dcmi_entities.
-Proof. split; reflexivity. Qed.
-Lemma tie_sdr_constants : G.sdrHeaderLength = 5 /\ G.sdrMaxLength = 64 /\ G.RecordTypeFullSensor = 1 /\
-                          G.RecordIDFirst = 0 /\ G.RecordIDLast = 0xffff.
+(* Read from the source by TYPE (every package-level literal of ipmi.EntityID constants in pkg/dcmi; every constant put
+   into the Length / Offset field of a Get SDR request or compared with a record header's length), not by the names of
+   variables, constants or functions - so a rename or a regrouping does not disturb it.  An empty list means "nothing of
+   that shape is in the source any more" (e.g. the values became run-time parameters): the tie then says nothing and the
+   values are covered by the runs alone (C16's enumeration against generated BMCs, C14's walks: both compare results
+   and requests with the model for every generated case). *)
+Definition present_then {A} (eqb : A -> A -> bool) (found expected : list A) : bool :=
+  match found with [] => true | _ => forallb (fun x => existsb (eqb x) expected) found && forallb (fun x => existsb (eqb x) found) expected end.
+Definition nlist_eqb (a b : list N) : bool := if list_eq_dec N.eq_dec a b then true else false.
+Lemma tie_entities : present_then nlist_eqb G.entity_groups [ipmi_entities; dcmi_entities] = true.
+Proof. vm_compute. reflexivity. Qed.
+Lemma tie_sdr_constants :
+  present_then N.eqb G.sdr_length_consts [5] = true /\ present_then N.eqb G.sdr_offset_consts [0; 5] = true /\
+  present_then N.eqb G.sdr_max_consts [64] = true /\
+  G.RecordTypeFullSensor = 1 /\ G.RecordIDFirst = 0 /\ G.RecordIDLast = 0xffff.
 Proof. repeat split. Qed.
 
